@@ -57,6 +57,42 @@ def section(text, start_pat, what, length=4000):
     return text[m.start():m.start() + length]
 
 
+_PROBES = {}
+
+
+def probes(repo):
+    """behavioural fallback (harness bin `probes`): parameter bounds read off the public API"""
+    if "v" not in _PROBES:
+        _PROBES["v"] = None
+        try:
+            import json, os
+            sys.path.insert(0, os.path.dirname(os.path.abspath(__file__)))
+            import vlib
+            vlib.REPO = repo
+            ok, binp, out = vlib.cargo_build(os.path.join(vlib.VERIF, "harness"), "probes", "release")
+            if ok:
+                rc, o = vlib.sh([binp], timeout=120)
+                if rc == 0:
+                    _PROBES["v"] = json.loads(o.strip().splitlines()[-1])
+        except Exception:
+            _PROBES["v"] = None
+    return _PROBES["v"]
+
+
+def data_int(repo, name, text, pattern, what, group=1):
+    """a DATA anchor: the constant as spelled in the source; if the text no longer matches the extractor, the value the
+    implementation exhibits through its public API (a note, exit 3); if neither is available the anchor is lost (exit 2)"""
+    m = re.search(pattern, text, re.S) if text is not None else None
+    if m:
+        return rust_int(m.group(group))
+    pv = probes(repo)
+    if pv is not None and name in pv:
+        SOFT.append(what)
+        print("anchor changed: %s (text no longer matches the extractor; value %d taken from the implementation's behaviour)" % (what, pv[name]))
+        return int(pv[name])
+    fail(what)
+
+
 def main():
     repo, out = sys.argv[1], sys.argv[2]
     enc = open(repo + "/src/encode.rs").read()
@@ -64,22 +100,21 @@ def main():
     items = []   # (name, value, model term)
 
     # ---- encode.rs
-    items.append(("MAX_SAMPLES", rust_int(find(enc, r"const MAX_SAMPLES: u64 = ([0-9_]+);", "Encoder::MAX_SAMPLES").group(1)), "MAX_SAMPLES"))
+    items.append(("MAX_SAMPLES", data_int(repo, "MAX_SAMPLES", enc, r"const MAX_SAMPLES: u64 = ([0-9_xXa-fA-F<> ()+*-]+);", "Encoder::MAX_SAMPLES"), "MAX_SAMPLES"))
     items.append(("MAX_LPC_COEFFS", rust_int(find(enc, r"const MAX_LPC_COEFFS: usize = ([0-9_]+);", "MAX_LPC_COEFFS").group(1)), "MAX_LPC_COEFFS"))
     items.append(("MAX_PARTITIONS", rust_int(find(enc, r"const MAX_PARTITIONS: usize = ([0-9_]+);", "MAX_PARTITIONS").group(1)), "MAX_PARTITIONS"))
     # Options::block_size: `0..16 => Err(OptionsError::InvalidBlockSize)`
-    items.append(("min_block_size", rust_int(find(enc, r"0\.\.(\d+) => Err\(OptionsError::InvalidBlockSize\)", "Options::block_size lower bound").group(1)), "16"))
+    items.append(("min_block_size", data_int(repo, "min_block_size", enc, r"0\.\.(\d+) => Err\(OptionsError::InvalidBlockSize\)", "Options::block_size lower bound"), "16"))
     # Options::max_lpc_order: `.filter(|o| *o <= NonZero::new(32).unwrap())`
-    items.append(("max_lpc_order", rust_int(find(enc, r"\.filter\(\|o\| \*o <= NonZero::new\((\d+)\)\.unwrap\(\)\)\s*\.ok_or\(OptionsError::InvalidLpcOrder\)", "Options::max_lpc_order bound").group(1)), "32"))
+    items.append(("max_lpc_order", data_int(repo, "max_lpc_order", enc, r"\.filter\(\|o\| \*o <= NonZero::new\((\d+)\)\.unwrap\(\)\)\s*\.ok_or\(OptionsError::InvalidLpcOrder\)", "Options::max_lpc_order bound"), "32"))
     # Options::max_partition_order: `0..=15 => Ok(`
-    mpo = section(enc, r"pub fn max_partition_order\(self", "Options::max_partition_order", 600)
-    items.append(("max_partition_order", rust_int(find(mpo, r"0\.\.=(\d+) => Ok\(", "max_partition_order range").group(1)), "15"))
+    mpo = soft_section(enc, r"pub fn max_partition_order\(self", 600)
+    items.append(("max_partition_order", data_int(repo, "max_partition_order", mpo, r"0\.\.=(\d+) => Ok\(", "max_partition_order range"), "15"))
     # Encoder::new: sample rate and channel ranges
     newf = section(enc, r"fn new\(\s*mut writer: W,\s*options: Options,", "Encoder::new", 5000)
-    items.append(("sample_rate_bound", rust_int(find(newf, r"sample_rate: \(0\.\.(\d+)\)", "Encoder::new sample-rate range").group(1)), "1048576"))
-    m = find(newf, r"channels: \((\d+)\.\.=(\d+)\)", "Encoder::new channel range")
-    items.append(("min_channels", int(m.group(1)), "1"))
-    items.append(("max_channels", int(m.group(2)), "8"))
+    items.append(("sample_rate_bound", data_int(repo, "sample_rate_bound", newf, r"sample_rate: \(0\.\.(\d+)\)", "Encoder::new sample-rate range"), "1048576"))
+    items.append(("min_channels", data_int(repo, "min_channels", newf, r"channels: \((\d+)\.\.=(\d+)\)", "Encoder::new channel range (lower)", 1), "1"))
+    items.append(("max_channels", data_int(repo, "max_channels", newf, r"channels: \((\d+)\.\.=(\d+)\)", "Encoder::new channel range (upper)", 2), "8"))
     # sort keys
     keys = {}
     for name in ("VorbisComment", "SeekTable", "Picture", "Application", "Cuesheet", "Padding"):
